@@ -301,7 +301,7 @@ func runC16(c *Ctx, variant int) {
 		d.verify()
 		return
 	}
-	steps := w.Range(2, 12)
+	steps := w.Range(2, c.Deep(12))
 	for i := 0; i < steps; i++ {
 		async := w.Chance(1, 2)
 		switch w.Choose(9) {
